@@ -91,6 +91,11 @@ CHECKS = {
             'Random class/function shape family (0-4 class arguments with/without def, 0-3 parents with identifier/string arguments in any position, abstract parent, explicit constructor with default, interleaved fields/methods/operators, parameter defaults, vararg), generated programs and sweep cells, both flags; shape programs judged 2-3 times so that hash-order dependent member loss shows.',
             'A class without class arguments and parent arguments needs no __init__ of its own: the constructor signature Python reports is what is compared.',
             'DESIGN.md section 4, C17'),
+    'C02': ('exploration',
+            'runtime monitor with CPython compile() as oracle on the exact text the real pipeline returned: generator workloads, repository samples, accepted survivors of token-level mutation / token soup / type-expression fuzz / adversarial shapes, and a catalogue of one-line and nested statement/expression shapes; both flags',
+            'Every accepted input of the streams has each returned module compiled by CPython; a refusal is classified from the emitted text (detectors for the listed literal/statement shapes, otherwise CPython message + shape of the offending line) so that a printer regression gets a signature of its own; the first witness of each signature is shrunk on the Mamba side.',
+            'CPython 3.11 compile() defines valid Python 3. Most fuzz inputs are rejected by the pipeline; the floor demands >= 2% accepted.',
+            'DESIGN.md section 4, C02'),
 }
 
 NOT_YET = 'monitor not built yet in this revision (construction order: DESIGN.md section 9); not claimed rather than claimed weakly'
